@@ -85,6 +85,10 @@ MUTANTS = [
      "AegeanTools/source_finder.py",
      "regroup_eps = 4*np.mean([s.a/60 for s in sources])",
      "regroup_eps = 4*np.mean([s.a/3600 for s in sources])", "C05-R8"),
+    ("island cut-out is a view of the image (seed C05d)",
+     "AegeanTools/source_finder.py",
+     "            idata = data[int(xmin): int(xmax), int(ymin): int(ymax)].copy()",
+     "            idata = data[int(xmin): int(xmax), int(ymin): int(ymax)]", "C05-R9"),
 ]
 TWINS = [
     ("vary via local", "AegeanTools/source_finder.py",
@@ -230,6 +234,26 @@ def run(ctx):
     # ---------------------------------------------------------------- R3
     r3(ctx, prog, rf)
     r7(ctx, prog, rf, adds)
+    # ------------------------------------------------------------ frame rule
+    ctx.rule("C05-R9", "fitting works on copies: no in-place write (masking with "
+             "NaN, -=, fill) goes through a view of the shared image / "
+             "noise / background arrays -- otherwise the pixels blanked for "
+             "one island are missing for every island processed later, and "
+             "which sources are measured depends on the processing order")
+    from ..core import view_writes
+    nvw = 0
+    for short in ['source_finder.SourceFinder._refit_islands', 'source_finder.SourceFinder.priorized_fit_islands']:
+        if not prog.has_func(short):
+            continue
+        fi_ = prog.func(short)
+        nvw += 1
+        vw = view_writes(fi_.node)
+        ctx.check("C05-R9", fi_, "no write through a view of the shared arrays "
+                  "in " + fi_.name, not vw,
+                  "%s writes into %s, a view of %s (no copy in between)" %
+                  ((norm(vw[0][0], 60), vw[0][1], vw[0][2]) if vw
+                   else ("", "", "")), node=vw[0][0] if vw else fi_.node)
+    ctx.floor("C05-R9", nvw, 2, "fitting functions examined for view writes")
     # blends are fitted jointly: default grouping length (shared with C19)
     from .c19 import default_linking_length
     ctx.rule("C05-R8", "blended sources are fitted jointly: the default "
@@ -246,14 +270,28 @@ def run(ctx):
           and isinstance(x.slice, ast.Tuple) and len(x.slice.elts) == 2 and
           all(isinstance(e, ast.Slice) for e in x.slice.elts) and
           norm(x.value) == "data"]
-    if not sl:
-        raise AnalysisError("C05: cut-out slice data[a:b, c:d] not found")
-
     def strip(e):
         return norm(e.args[0]) if isinstance(e, ast.Call) and \
             norm(e.func) == "int" else norm(e)
-    row0, col0 = strip(sl[0].slice.elts[0].lower), \
-        strip(sl[0].slice.elts[1].lower)
+    if sl:
+        row0, col0 = strip(sl[0].slice.elts[0].lower), \
+            strip(sl[0].slice.elts[1].lower)
+    else:
+        # data[box] with  box = slice(r0, r1), slice(c0, c1)
+        from .c08 import _resolve_local as _rl
+        row0 = col0 = None
+        for x in walk_no_nested(rf.node):
+            if isinstance(x, ast.Subscript) and norm(x.value) == "data" and \
+                    isinstance(x.slice, ast.Name):
+                bx = _rl(rf.node, x.slice)
+                if isinstance(bx, ast.Tuple) and len(bx.elts) == 2 and all(
+                        isinstance(e, ast.Call) and norm(e.func) == "slice"
+                        and len(e.args) >= 2 for e in bx.elts):
+                    row0, col0 = strip(bx.elts[0].args[0]), \
+                        strip(bx.elts[1].args[0])
+        if row0 is None:
+            raise AnalysisError("C05: cut-out slice data[a:b, c:d] not "
+                                "found")
     for s in walk_no_nested(rf.node):
         tg = None
         if isinstance(s, ast.AugAssign):
@@ -491,15 +529,22 @@ def r3(ctx, prog, rf):
              "slice truncates while the offset keeps the fraction and the "
              "model is mis-registered by half a pixel")
     bounds = set()
+
+    def take(b):
+        if isinstance(b, ast.Call) and norm(b.func) == "int" and \
+                b.args and isinstance(b.args[0], ast.Name):
+            bounds.add(b.args[0].id)
     for x in walk_no_nested(rf.node):
         if isinstance(x, ast.Subscript) and isinstance(x.slice, ast.Tuple) \
                 and len(x.slice.elts) == 2 and all(
                     isinstance(e, ast.Slice) for e in x.slice.elts):
             for e in x.slice.elts:
                 for b in (e.lower, e.upper):
-                    if isinstance(b, ast.Call) and norm(b.func) == "int" and \
-                            b.args and isinstance(b.args[0], ast.Name):
-                        bounds.add(b.args[0].id)
+                    take(b)
+        # slice objects:  box = slice(int(xmin), int(xmax)), slice(...)
+        if isinstance(x, ast.Call) and norm(x.func) == "slice":
+            for b in x.args[:2]:
+                take(b)
     if len(bounds) < 4:
         raise AnalysisError("C05-R3: int(..) slice bounds not recognised "
                             "(%s)" % sorted(bounds))
